@@ -236,6 +236,9 @@ C_INDEX = '''
         // path condition of the arm (assumed): the source is an array or a slice, `expr` has
         // its element type, the operands carry their types
         arr_len(*source_ty.0) is Some || spec_abs(*source_ty.0) is Slice,
+        // the element has bytes (for a zero-sized element the arm returns right after the guard:
+        // that path is covered by the bounded unit index_exec only)
+        !element_is_zero_sized,
         expr_ty(expr) == elem_of(*source_ty.0), entry_ok(elem_of(*source_ty.0)),
         tfinal(*index_ty.0) is Number, nt_wf(tfinal(*index_ty.0)->Number_0), !tfinal(*index_ty.0)->Number_0.float,
         den_of(tfinal(*index_ty.0)->Number_0, index.den@),
@@ -258,7 +261,7 @@ u.extract(F, "impl FunctionCompiler<'_>::fn compile_expr_with_args", key='index_
           lift=dict(start_at='let naive_index =',
                     end_at='final_addr,\n                        0,\n                    ))\n                }',
                     sig='''fn index_guard(&mut self, source: Value, source_ty: Intern<Ty>, index: Value, index_ty: Intern<Ty>,
-                           expr: ExprIdx, no_load: bool) -> (res: Option<Value>)''',
+                           expr: ExprIdx, no_load: bool, element_is_zero_sized: bool) -> (res: Option<Value>)''',
                     tail=INDEX_PROOF,
                     why='the part of the `Expr::Index` arm of compile_expr_with_args after both operands have been compiled, lifted into a method; assumed path condition: source is the address of the array / slice value, index the index value'),
           inserts=[('@body_start', 'after', ' let ghost src0 = source; let ghost b0 = self.builder; '),
